@@ -209,9 +209,10 @@ Fixpoint parse_basic (fuel : nat) (s : str) : option (str * str) :=
 
 Definition parse_string (s : str) : option (str * str) :=
   match s with
-  | 39 :: r => parse_lit (length s) r
-  | 34 :: r => parse_basic (length s) r
-  | _ => None
+  | b :: r => if b =? 39 then parse_lit (length s) r
+              else if b =? 34 then parse_basic (length s) r
+              else None
+  | [] => None
   end.
 
 Fixpoint strip_prefix (p s : str) : option str :=
@@ -230,18 +231,29 @@ Fixpoint parse_array_items (fuel : nat) (s : str) : option (list str * str) :=
       | None => None
       | Some (v, r) =>
           match r with
-          | 93 :: r' => Some ([v], r')
-          | 44 :: 32 :: r' => map_fst (cons v) (parse_array_items f r')
-          | _ => None
+          | b :: r' =>
+              if b =? 93 then Some ([v], r')
+              else if b =? 44 then
+                match r' with
+                | b' :: r'' => if b' =? 32 then map_fst (cons v) (parse_array_items f r'') else None
+                | [] => None
+                end
+              else None
+          | [] => None
           end
       end
   end.
 
 Definition parse_array (s : str) : option (list str * str) :=
   match s with
-  | 91 :: 93 :: r => Some ([], r)
-  | 91 :: r => parse_array_items (length s) r
-  | _ => None
+  | b :: r =>
+      if b =? 91 then
+        match r with
+        | b' :: r' => if b' =? 93 then Some ([], r') else parse_array_items (length s) r
+        | [] => None
+        end
+      else None
+  | [] => None
   end.
 
 Fixpoint span (p : N -> bool) (s : str) : str * str :=
@@ -252,9 +264,10 @@ Fixpoint span (p : N -> bool) (s : str) : str * str :=
 
 Definition parse_key (s : str) : option (str * str) :=
   match s with
-  | 39 :: _ => parse_string s
-  | 34 :: _ => parse_string s
-  | _ => let (k, r) := span is_plain_byte s in if isnil k then None else Some (k, r)
+  | b :: _ =>
+      if (b =? 39) || (b =? 34) then parse_string s
+      else let (k, r) := span is_plain_byte s in if isnil k then None else Some (k, r)
+  | [] => None
   end.
 
 Definition bind {A B} (o : option A) (f : A -> option B) : option B :=
@@ -270,13 +283,11 @@ Definition parse_req_line (s : str) : option (req * str) :=
   bind (strip_prefix s_close s5) (fun s6 => Some (mkReq k p v, s6))))))).
 
 Fixpoint parse_req_lines (fuel : nat) (s : str) : option (list req) :=
-  match s with
-  | [] => Some []
-  | _ => match fuel with
-         | O => None
-         | S f => bind (parse_req_line s) (fun '(r, s') => option_map (cons r) (parse_req_lines f s'))
-         end
-  end.
+  if isnil s then Some []
+  else match fuel with
+       | O => None
+       | S f => bind (parse_req_line s) (fun '(r, s') => option_map (cons r) (parse_req_lines f s'))
+       end.
 
 (** optional  "<prefix><value>\n"  *)
 Definition opt_line {A} (prefix : str) (p : str -> option (A * str)) (dflt : A) (s : str) : option (A * str) :=
@@ -287,17 +298,22 @@ Definition opt_line {A} (prefix : str) (p : str -> option (A * str)) (dflt : A) 
 
 Definition skip_blank (s : str) : str := match s with 10 :: s' => s' | _ => s end.
 
+(** [ignore = [..]] preceded by an optional blank line *)
+Definition parse_ignore_part (s : str) : option (list str * str) :=
+  opt_line s_ignore_eq parse_array [] (skip_blank s).
+
+(** the [requirements] section, preceded by an optional blank line, up to the end of the document *)
+Definition parse_reqs_part (s : str) : option (list req) :=
+  let s4 := skip_blank s in
+  if isnil s4 then Some []
+  else bind (strip_prefix s_requirements s4) (fun s5 => parse_req_lines (length s5) s5).
+
 (** The document: the four items in the writer's order, each optional. *)
 Definition parse (s : str) : option config :=
   bind (opt_line s_name_eq parse_string [] s) (fun '(name, s1) =>
   bind (opt_line s_version_eq parse_string [] s1) (fun '(version, s2) =>
-  bind (opt_line s_ignore_eq parse_array [] (skip_blank s2)) (fun '(ignore, s3) =>
-  let s4 := skip_blank s3 in
-  match s4 with
-  | [] => Some (mkConfig name version ignore [])
-  | _ => bind (strip_prefix s_requirements s4) (fun s5 =>
-         option_map (mkConfig name version ignore) (parse_req_lines (length s5) s5))
-  end))).
+  bind (parse_ignore_part s2) (fun '(ignore, s3) =>
+  option_map (mkConfig name version ignore) (parse_reqs_part s3)))).
 
 (** ** golang.org/x/mod/semver: IsValid(v) && Canonical(v) == v *)
 
